@@ -72,7 +72,7 @@ func init() {
 
 	vlib.Register(&vlib.Check{
 		ID: "C19", Engine: "E2",
-		Rule: "program = one command from an explicit allow-list of 95 data/structural builtins (index, element, range, lists, mkarray, format, cast, tout, args, config, set/global, escape family, json tools, count, match/regexp, alter, struct-keys, switch/if/foreach/try family, test …) x every argument tuple of arity <= A over {empty string, -1, -5, 0, 99999999999999999999, --bad, {, [, ], a, null, [1,2], {\"a\":1}, c, *3, *0} passed verbatim through variables (quick A=1, plus A=2 for the builtins that need two arguments: args tout alter config test map set cast format; thorough A=2 for all) x mode {function without stdin; method fed by {empty, two lines, JSON array, JSON object, a whitespace table with a short row}} x scope parameters {none, --bad, -1 (thorough also: a; --bad a)}; each run in-process (same fork seam as mx.Run) on its own goroutine with fd 2 read while it runs: 'blocked' is declared when crash.Handler's report is on fd 2 and the caller is still waiting 0.3 s later, or when nothing came back after 120 s; after 24 blocked cases in one builtin/arity/mode/scope class the rest of that class is skipped and counted; plus every sequence of <= 3 (thorough <= 4) commands over {pipe a, !pipe a, pipe b, !pipe b, pipe a --file /no/such/dir/x (a creation whose constructor fails), out hi -> <a> (a write through the registry)} run in a child murex process built from the working tree which then waits 3 s (the close grace period) and must still print `alive`, plus six single programs whose redirection token creates a temporary pipe (<nosuch:xyz>, <file:/no/such/dir/x>, <std:x>, ...); a child is declared blocked when every one of its threads is asleep and it has consumed no CPU time for 25 s (state-based: a starved child has runnable threads), and spinning when it has itself consumed more than 60 s of CPU time (load-independent). Oracle: the run returns control; no 'panic caught', no 'Murex has crashed', no Go panic trace; exit number != 0 whenever stderr carries a murex error report (`Error in`); child process exits normally. non-trivial = the command reported an error or produced output on stderr (an error path was executed) or the case is a pipe sequence with at least one close",
+		Rule: "program = one command from an explicit allow-list of 95 data/structural builtins (index, element, range, lists, mkarray, format, cast, tout, args, config, set/global, escape family, json tools, count, match/regexp, alter, struct-keys, switch/if/foreach/try family, test …) x every argument tuple of arity <= A over {empty string, -1, -5, 0, 99999999999999999999, --bad, {, [, ], a, null, [1,2], {\"a\":1}, c, *3, *0} passed verbatim through variables (quick A=1, plus A=2 for the builtins that need two arguments: args tout alter config test map set cast format; thorough A=2 for all) x mode {function without stdin; method fed by {empty, two lines, JSON array, JSON object, a whitespace table with a short row}} x scope parameters {none, --bad, -1 (thorough also: a; --bad a)}; each run in-process (same fork seam as mx.Run) on its own goroutine with fd 2 read while it runs: 'blocked' is declared when crash.Handler's report is on fd 2 and the caller is still waiting 0.3 s later, or when nothing came back after 120 s; after 24 blocked cases in one builtin/arity/mode/scope class the rest of that class is skipped and counted; plus every sequence of <= 3 (thorough <= 4) commands over {pipe a, !pipe a, pipe b, !pipe b, pipe a --file /no/such/dir/x (a creation whose constructor fails), out hi -> <a> (a write through the registry), pipe a --tcp-dial nosuch (a constructor that fails while returning a typed nil pointer; the child is built with the net pipe types)} run in a child murex process built from the working tree which then waits 3 s (the close grace period) and must still print `alive`, plus six single programs whose redirection token creates a temporary pipe (<nosuch:xyz>, <file:/no/such/dir/x>, <std:x>, ...); a child is declared blocked when every one of its threads is asleep and it has consumed no CPU time for 25 s (state-based: a starved child has runnable threads), and spinning when it has itself consumed more than 60 s of CPU time (load-independent). Oracle: the run returns control; no 'panic caught', no 'Murex has crashed', no Go panic trace; exit number != 0 whenever stderr carries a murex error report (`Error in`); child process exits normally. non-trivial = the command reported an error or produced output on stderr (an error path was executed) or the case is a pipe sequence with at least one close",
 		Run:    run,
 		Replay: replay,
 		Shards: func(string) int { return 16 },
@@ -269,7 +269,7 @@ func evalCase(c *vlib.Ctx, k kase, n int, hung map[string]int) {
 
 // the last operation is a creation whose constructor fails (the registry must be usable afterwards)
 // and the one after it uses pipe a (whatever state the registry left it in)
-var pipeOps = []string{"pipe a%s", "!pipe a%s", "pipe b%s", "!pipe b%s", "pipe a%s --file /no/such/dir/x", "out hi -> <a%s>"}
+var pipeOps = []string{"pipe a%s", "!pipe a%s", "pipe b%s", "!pipe b%s", "pipe a%s --file /no/such/dir/x", "out hi -> <a%s>", "pipe a%s --tcp-dial nosuch"}
 
 // single programs run alone in a child process: redirection tokens that create a temporary pipe
 var childSingles = []string{
